@@ -395,6 +395,66 @@ int mkostemps(char *tmpl, int suffixlen, int flags) {
   return do_mkstemp(tmpl, suffixlen, flags);
 }
 
+// Files that come into being through open()/creat()/mkdir()/rename()/symlink()/link() directly (not through fopen or
+// mkstemp, which are events of their own): reported to the controller, which checks at the end that nothing a command
+// created outside its requested outputs is still there -- wherever it is (TMPDIR, $HOME, /var/tmp, next to an input ...).
+static void note_created(const char *what, const char *path) {
+  if (!active || coarse || !path) return;
+  char one[1024], abs[1100];
+  if (path[0] != '/') {
+    char cwd[600];
+    if (!getcwd(cwd, sizeof cwd)) return;
+    snprintf(abs, sizeof abs, "%s/%s", cwd, path);
+    path = abs;
+  }
+  esc(one, sizeof one, path);
+  sendf("RES created %s %s", what, one);
+}
+int open(const char *path, int flags, ...) {
+  static int (*real)(const char *, int, ...);
+  if (!real) real = dlsym(RTLD_NEXT, "open");
+  mode_t mode = 0;
+  if (flags & (O_CREAT | O_TMPFILE)) { va_list ap; va_start(ap, flags); mode = va_arg(ap, mode_t); va_end(ap); }
+  int existed = (flags & O_CREAT) && access(path, F_OK) == 0;
+  int fd = real(path, flags, mode);
+  if (fd >= 0 && (flags & O_CREAT) && !existed) { int e = errno; note_created("open", path); errno = e; }
+  return fd;
+}
+int open64(const char *path, int flags, ...) {
+  mode_t mode = 0;
+  if (flags & (O_CREAT | O_TMPFILE)) { va_list ap; va_start(ap, flags); mode = va_arg(ap, mode_t); va_end(ap); }
+  return open(path, flags, mode);
+}
+int creat(const char *path, mode_t mode) { return open(path, O_CREAT | O_WRONLY | O_TRUNC, mode); }
+int mkdir(const char *path, mode_t mode) {
+  static int (*real)(const char *, mode_t);
+  if (!real) real = dlsym(RTLD_NEXT, "mkdir");
+  int r = real(path, mode);
+  if (r == 0) { int e = errno; note_created("mkdir", path); errno = e; }
+  return r;
+}
+int rename(const char *from, const char *to) {
+  static int (*real)(const char *, const char *);
+  if (!real) real = dlsym(RTLD_NEXT, "rename");
+  int r = real(from, to);
+  if (r == 0) { int e = errno; note_created("rename", to); errno = e; }
+  return r;
+}
+int symlink(const char *target, const char *path) {
+  static int (*real)(const char *, const char *);
+  if (!real) real = dlsym(RTLD_NEXT, "symlink");
+  int r = real(target, path);
+  if (r == 0) { int e = errno; note_created("symlink", path); errno = e; }
+  return r;
+}
+int link(const char *from, const char *to) {
+  static int (*real)(const char *, const char *);
+  if (!real) real = dlsym(RTLD_NEXT, "link");
+  int r = real(from, to);
+  if (r == 0) { int e = errno; note_created("link", to); errno = e; }
+  return r;
+}
+
 int unlink(const char *path) {
   static int (*real)(const char *);
   if (!real) real = dlsym(RTLD_NEXT, "unlink");
